@@ -46,28 +46,56 @@ Local Notation connect_failed cfg s pr cls :=
    then (s, Raised (XNewFrom (lit "ConnectionError") (XLib cls)), pre ++ [GRaise (XNewFrom (lit "ConnectionError") (XLib cls))])
    else (s, Raised (XLib cls), pre)).
 
-(* ---------- GeminiClient.__init__: trust_on_first_use decides whether there is a trust store; verify_ssl only chooses the TLS
-   context (CERT_REQUIRED + check_hostname, or CERT_NONE) when the caller gives none ---------- *)
-Theorem init_tie : forall t v c d,
-  gen_init t v c d = {| cfg_tofu_db := if t then Some tt else None;
-                        cfg_ssl_context := match c with Some i => CtxGiven i | None => CtxCreated v v end;
-                        cfg_decode_bodies := d |}.
+(* ---------- GeminiClient.__init__: every attribute it assigns is exactly the constructor argument (timeout, max_redirects - 0
+   stays 0 -, verify_ssl, trust_on_first_use, decode_bodies); trust_on_first_use decides whether there is a trust store; verify_ssl
+   only chooses the TLS context (CERT_REQUIRED + check_hostname, or CERT_NONE) when the caller gives none ---------- *)
+Theorem init_tie : forall to mr c v t d,
+  gen_init to mr c v t d = {| cfg_timeout := to; cfg_max_redirects := mr; cfg_verify_ssl := v; cfg_trust_on_first_use := t;
+                              cfg_tofu_db := if t then Some tt else None;
+                              cfg_ssl_context := match c with Some i => CtxGiven i | None => CtxCreated v v end;
+                              cfg_decode_bodies := d |}.
 Proof. exact EquivSession_proofs.init_tie. Qed.
 Print Assumptions init_tie.
 
+(* the defaults of the constructor: TOFU on, CA verification off, bodies decoded, 30 s, MAX_REDIRECTS (protocol/constants.py) = 5 *)
+Theorem init_defaults :
+  gen_init_default_timeout = QArith_base.Qmake 30 1 /\ gen_init_default_max_redirects = gen_MAX_REDIRECTS /\ gen_MAX_REDIRECTS = 5 /\
+  gen_init_default_ssl_context = None /\ gen_init_default_verify_ssl = false /\ gen_init_default_trust_on_first_use = true /\
+  gen_init_default_decode_bodies = true.
+Proof. exact EquivSession_proofs.init_defaults. Qed.
+Print Assumptions init_defaults.
+
+(* ---------- GeminiClient.get, for a client built by the constructor with max_redirects = mr (ANY value, 0 included): the URL and
+   its normalised form are validated first - a failure is the result and neither callee is applied, so nothing is connected -,
+   then follow_redirects on is _get_with_redirects(url, mr, no chain) with that same mr, off is _get_single(url) ---------- *)
+Theorem get_tie : forall (A : Type) vu pu (gwr : str -> nat -> option (list str) -> res A) gs to mr c v t d url follow,
+  gen_get vu pu gwr gs (gen_init to mr c v t d) url follow
+  = match vu url with
+    | Ok _ => match pu url with
+              | Ok pr => match vu (Url.p_norm pr) with
+                         | Ok _ => if follow then gwr url mr None else gs url
+                         | Err k m => Err k m | OutOfModel => OutOfModel
+                         end
+              | Err k m => Err k m | OutOfModel => OutOfModel
+              end
+    | Err k m => Err k m | OutOfModel => OutOfModel
+    end.
+Proof. exact (@EquivSession_proofs.get_tie). Qed.
+Print Assumptions get_tie.
+
 (* ---------- the tie to state: one _get_single call on a connection that was made = Session.session_call, on the three
    components the model has (store, result, observable events), for every request, store, certificate, chunks and error ---------- *)
-Theorem get_single_tie : forall request cap dw now pu url pr t v ctx db s c chunks exc,
+Theorem get_single_tie : forall request cap dw now pu url pr t v ctx db to mr s c chunks exc,
   pu url = Ok pr ->
-  model_view (code_get_single request cap dw now pu (m_wait cap dw chunks exc) (gen_init t v ctx db) s url ConnOk c)
+  model_view (code_get_single request cap dw now pu (m_wait cap dw chunks exc) (gen_init to mr ctx v t db) s url ConnOk c)
   = Some (session_call request db cap dw t s (Url.p_host pr) (Url.p_port pr) (presented_of c) now chunks exc).
 Proof. exact EquivSession_proofs.get_single_tie. Qed.
 Print Assumptions get_single_tie.
 
 (* upload: the same model at decode_body = true, on the host and port of the converted URL *)
-Theorem upload_tie : forall request cap dw now rp pu url content mime token cb base pr t v ctx db s c chunks exc,
+Theorem upload_tie : forall request cap dw now rp pu url content mime token cb base pr t v ctx db to mr s c chunks exc,
   content_bytes content = Some cb -> titan_base url = Some base -> pu (rp base (lit "titan://") (lit "gemini://")) = Ok pr ->
-  model_view (code_upload request cap dw now rp pu (m_wait cap dw chunks exc) (gen_init t v ctx db) s url content mime token ConnOk c)
+  model_view (code_upload request cap dw now rp pu (m_wait cap dw chunks exc) (gen_init to mr ctx v t db) s url content mime token ConnOk c)
   = Some (session_call request true cap dw t s (Url.p_host pr) (Url.p_port pr) (presented_of c) now chunks exc).
 Proof. exact EquivSession_proofs.upload_tie. Qed.
 Print Assumptions upload_tie.
@@ -107,8 +135,8 @@ Print Assumptions get_single_bad_url.
    False; every write is preceded by a verify call that returned is_valid = True (NO write before the verdict); the trace
    satisfies the monitor of C11; and if the pin check does not accept - the certificate changed, or it could not be read - nothing
    is written at all.  For every URL parser, connection outcome, store, certificate and behaviour of the peer ---------- *)
-Theorem get_single_c11 : forall request cap dw now pu url v ctx db s c conn w,
-  let evs := snd (code_get_single request cap dw now pu w (gen_init true v ctx db) s url conn c) in
+Theorem get_single_c11 : forall request cap dw now pu url v ctx db to mr s c conn w,
+  let evs := snd (code_get_single request cap dw now pu w (gen_init to mr ctx v true db) s url conn c) in
   (forall soc, In (GProto soc) evs -> soc = false) /\
   (forall pre b post, evs = pre ++ GWrite b :: post -> exists m, In (GVerify (true, m)) pre) /\
   Spec.C11.ok (sview evs) = true /\
@@ -117,8 +145,8 @@ Theorem get_single_c11 : forall request cap dw now pu url v ctx db s c conn w,
 Proof. exact EquivSession_proofs.get_single_c11. Qed.
 Print Assumptions get_single_c11.
 
-Theorem upload_c11 : forall request cap dw now rp pu url content mime token v ctx db s c conn w,
-  let evs := snd (code_upload request cap dw now rp pu w (gen_init true v ctx db) s url content mime token conn c) in
+Theorem upload_c11 : forall request cap dw now rp pu url content mime token v ctx db to mr s c conn w,
+  let evs := snd (code_upload request cap dw now rp pu w (gen_init to mr ctx v true db) s url content mime token conn c) in
   (forall soc, In (GProto soc) evs -> soc = false) /\
   (forall pre b post, evs = pre ++ GWrite b :: post -> exists m, In (GVerify (true, m)) pre) /\
   Spec.C11.ok (sview evs) = true /\
@@ -180,18 +208,18 @@ Print Assumptions connect_classes.
    model's (they do not depend on the response), and after an accepting verdict (or without TOFU) the call ends as after_wait says:
    a timeout raises TimeoutError; so does an exception of the future that is itself a TimeoutError (re-raised `from` it, which the
    model's label cannot tell from the original); every other exception of the future passes through unchanged *)
-Theorem get_single_wait : forall request cap dw now pu url pr t v ctx db s c wo chunks exc,
+Theorem get_single_wait : forall request cap dw now pu url pr t v ctx db to mr s c wo chunks exc,
   pu url = Ok pr ->
-  let r := code_get_single request cap dw now pu (fun _ => wo) (gen_init t v ctx db) s url ConnOk c in
+  let r := code_get_single request cap dw now pu (fun _ => wo) (gen_init to mr ctx v t db) s url ConnOk c in
   let m := session_call request db cap dw t s (Url.p_host pr) (Url.p_port pr) (presented_of c) now chunks exc in
   fst (fst r) = fst (fst m) /\ sview (snd r) = snd m /\
   (t = false \/ snd (tofu_check s (Url.p_host pr) (Url.p_port pr) (presented_of c) now) = SAccepted -> snd (fst r) = after_wait wo).
 Proof. exact EquivSession_proofs.get_single_wait. Qed.
 Print Assumptions get_single_wait.
 
-Theorem upload_wait : forall request cap dw now rp pu url content mime token cb base pr t v ctx db s c wo chunks exc,
+Theorem upload_wait : forall request cap dw now rp pu url content mime token cb base pr t v ctx db to mr s c wo chunks exc,
   content_bytes content = Some cb -> titan_base url = Some base -> pu (rp base (lit "titan://") (lit "gemini://")) = Ok pr ->
-  let r := code_upload request cap dw now rp pu (fun _ => wo) (gen_init t v ctx db) s url content mime token ConnOk c in
+  let r := code_upload request cap dw now rp pu (fun _ => wo) (gen_init to mr ctx v t db) s url content mime token ConnOk c in
   let m := session_call request true cap dw t s (Url.p_host pr) (Url.p_port pr) (presented_of c) now chunks exc in
   fst (fst r) = fst (fst m) /\ sview (snd r) = snd m /\
   (t = false \/ snd (tofu_check s (Url.p_host pr) (Url.p_port pr) (presented_of c) now) = SAccepted -> snd (fst r) = after_wait wo).
